@@ -251,14 +251,24 @@ CHECKS = {
             "ignore marking) and diffed on every case against pyhv's value AND internal state; proved about it: sweep_eq_hvCells / sweep_eq_volume - the transcription returns the "
             "specification, hence the Lebesgue measure, in EVERY dimension (induction over the levels of hvRecursive with an invariant on the linked lists, the cached areas / "
             "volumes below the bounds and the soundness of the ignore marks: Lemmas/C15Gen1-7), plus sweep_terminates, sweep_restores_lists, sweep_1d/2d/3d as directly proved "
-            "instances, hv_slab_step / hv_slab_decomposition, hvCells_coordinate_symmetry. No unproved statement remains. The dimension-sweep implementations (_hv.c rebuilt from the working tree on every run, pyhv.py) and the two wrappers "
+            "instances, hv_slab_step / hv_slab_decomposition, hvCells_coordinate_symmetry. The COMPILED routine _hv.c (fpli_hv: setup_cdllist, filter, hv_recursive VARIANT 4 with bound/vol/area caches, "
+            "ignore marks, delete(_dom)/reinsert(_dom), the base cases dim==0, dim==1 and the 3-D base case dim==2 with its domr/bound[2] re-entry logic) is transcribed statement by statement "
+            "(Core/HvC.lean; the embedded AVL library is abstracted to the ordered sequence it represents - the one thing not modelled) and diffed against the extension rebuilt from the working "
+            "tree on every hypervolume case; proved about it: hvC_setup_filter and hvC_le_one_point in EVERY dimension (the lists after setup_cdllist+filter are the sorted orders restricted to the "
+            "points strictly below the reference; n==0 / n==1), hvC_base_dim1/dim2/dim3 and hvC_eq_hvCells_partial / hvC_eq_volume_partial / hvC_total_partial for 1, 2 and 3 objectives (all inputs), "
+            "hvC_base_dim3_fresh (the AVL-tree sweep on any well-formed list, entered with bound[2] = -DBL_MAX), hvC_staircase_area / hvC_staircase_update (the strip sum and the update formula "
+            "l.955-982). UNPROVED and kept visible: hvC_eq_hvCells_Statement, hvC_total_Statement for >= 4 objectives (general case of hv_recursive, re-entered 3-D base case: correspondence only). "
+            "The dimension-sweep implementations (_hv.c rebuilt from the working tree on every run, pyhv.py) and the two wrappers "
             "with both backends are diffed against hvSlice on exactly representable inputs (exhaustive small domain, every permutation for <=5 points, tie-heavy d<=7), on "
             "general-position doubles (1e-12 relative against the exact Rat measure of the doubles' exact values), and under every calling convention (lists, tuples, int "
             "arrays, the same array twice, zero reference); an independent inclusion-exclusion oracle checks every answer.",
-            TB + "partial: the proof covers the specification, the wrappers and pyhv's algorithm in every dimension; that pyhv.py executes the transcription is the value-and-state correspondence; the C "
-            "extension (variant with AVL tree) is validated only. IEEE products of the dyadic test inputs are exact "
+            TB + "partial: the proof covers the specification, the wrappers, pyhv's algorithm in every dimension and the transcription of _hv.c for <= 3 objectives; that pyhv.py executes its "
+            "transcription is the value-and-state correspondence, that the extension executes Core/HvC.lean is the value correspondence (the transcription's internal state - list orders, ignore, "
+            "area, vol, bound, domr, calls - was validated once against an instrumented build on 50 000 tie-heavy cases, it is not part of the check because a value-preserving refactoring of the C "
+            "code must not raise an alarm); for >= 4 objectives the C algorithm is validated, not verified; the AVL library is abstracted to an ordered sequence; qsort is modelled as a stable sort "
+            "(glibc: merge sort; the value does not depend on the order of ties). IEEE products of the dyadic test inputs are exact "
             "(checked per case); C compiler, extension loading, numpy.argmax/max trusted.",
-            "Lean 4 proof (Mathlib measure theory) over a specification-level model + differential correspondence of two implementations + oracle"),
+            "Lean 4 proof (Mathlib measure theory) over a specification-level model and two transcribed algorithms + differential correspondence of two implementations + oracle"),
     "C18": ("full",
             "Lean theorems C18.* over histories of any length (record, pop, del index/slice, stream, chapter streams, header settings): logbook and chapters are the "
             "image of the surviving records (rows_in_order, chapter_fields, chapters_aligned, record_deep_aligned at every chapter depth, del_exact_index/slice, "
